@@ -133,7 +133,7 @@ public:
 #ifndef QM_EVQ_CAP
 #define QM_EVQ_CAP 4
 #endif
-struct QmPosted { QObject *receiver; QEvent *event; };
+struct QmPosted { QObject *receiver; QEvent *event; int priority; };
 inline QmPosted qm_evq[QM_EVQ_CAP];
 inline int qm_evq_n = 0;
 inline QObject *qm_evq_receiver = nullptr;
@@ -183,14 +183,17 @@ public:
     void emitAboutToQuit() { for (int i = 0; i < 3; ++i) if (i < m_nabout) m_aboutToQuitSlots[i](); }
     static void postEvent(QObject *receiver, QEvent *event, int priority = Qt::NormalEventPriority)
     {
-        (void)priority;
         QM_ASSERT(receiver != nullptr && !receiver->m_deleted, "postEvent to a destroyed object");
         QM_LIMIT(qm_evq_n < QM_EVQ_CAP);
         // model restriction: one receiver object at a time (the worker); keeping it in its own variable keeps the pointer
         // concrete for the solver when an event is delivered
         // (the receiver is registered when it is moved to its thread, i.e. outside any symbolic branch)
         QM_LIMIT(qm_evq_receiver == receiver);
-        for (int i = 0; i < QM_EVQ_CAP; ++i) if (i == qm_evq_n) { qm_evq[i].receiver = receiver; qm_evq[i].event = event; }
+        // Qt keeps the posted-event queue sorted by priority (higher first), FIFO among equal priorities
+        int pos = qm_evq_n;
+        for (int i = QM_EVQ_CAP - 1; i >= 0; --i) if (i < qm_evq_n && qm_evq[i].priority < priority) pos = i;
+        for (int i = QM_EVQ_CAP - 1; i > 0; --i) if (i <= qm_evq_n && i > pos) qm_evq[i] = qm_evq[i - 1];
+        for (int i = 0; i < QM_EVQ_CAP; ++i) if (i == pos) { qm_evq[i].receiver = receiver; qm_evq[i].event = event; qm_evq[i].priority = priority; }
         ++qm_evq_n;
         qm_yield(QM_Y_POST);
     }
@@ -253,8 +256,10 @@ inline bool QObject::connect(QThread *sender, void (QThread::*sig)(), QThread *r
 }
 
 // Qt's global message handler
-inline QtMessageHandler qm_installed_handler = nullptr;
-inline QtMessageHandler qInstallMessageHandler(QtMessageHandler h) { QtMessageHandler old = qm_installed_handler; qm_installed_handler = h; return old; }
+// Qt: the default handler is a real function; installing nullptr restores it; the previous handler is returned
+inline void qm_default_message_handler(QtMsgType, const QMessageLogContext &, const QString &) { }
+inline QtMessageHandler qm_installed_handler = qm_default_message_handler;
+inline QtMessageHandler qInstallMessageHandler(QtMessageHandler h) { QtMessageHandler old = qm_installed_handler; qm_installed_handler = h ? h : qm_default_message_handler; return old; }
 inline QString qm_message_pattern;
 inline void qSetMessagePattern(const QString &p) { qm_message_pattern = p; }
 inline QString qFormatLogMessage(QtMsgType, const QMessageLogContext &, const QString &msg) { return msg; }
